@@ -70,6 +70,14 @@ fn gen(rng: &mut Rng, _idx: u64, tier: Tier) -> Case {
     let mut args = vec![format!("--delete-after={}", d)];
     if rng.chance(0.4) { args.push("--use-update-method".into()); }
     if rng.chance(0.4) { args.push("--relaxed".into()); }
+    if rng.chance(0.2) {
+        // a filter list; frames it excludes must leave the table alone, the others keep their addresses
+        let all = [0u32, 4, 5, 11, 16, 17, 18, 20, 21];
+        let mut any = false;
+        for k in all { if rng.chance(0.6) { args.push(format!("--filter={}", k)); any = true; } }
+        if !any { args.push("--filter=17".into()); }
+    }
+    gen::add_neutral_options(rng, &mut args, true, true);
     let n = if tier == Tier::Thorough && rng.chance(0.05) { rng.range(100, 500) } else { rng.range(3, 50) } as usize;
     let mut lines: Vec<(i64, Vec<u8>, String)> = vec![];
     // sometimes the sky is crowded: well over a hundred other aircraft are already being tracked
@@ -130,6 +138,8 @@ fn check(case: &Case, st: &mut Stats) -> Vec<Violation> {
     let mut model = Expiry::new(d);
     let empty: Arc<Snapshot> = Arc::new(Snapshot::new());
     let mut applied_addrs = std::collections::BTreeSet::new();
+    let filter = case.script.filter();
+    let passes = |df: u32| filter.as_ref().map(|f| f.contains(&df)).unwrap_or(true);
     for (i, s) in h.steps.iter().enumerate() {
         let before = if i == 0 { &empty } else { &h.steps[i - 1].after };
         st.state(abstract_state(&s.after, s.t_us, d, if case.script.has_arg("--use-update-method") { "U" } else { "-" }, s.tag.split(':').next().unwrap_or("")));
@@ -138,7 +148,9 @@ fn check(case: &Case, st: &mut Stats) -> Vec<Violation> {
         let mut zero_frames = 0;
         for l in &s.lines {
             let c = refm::classify(l);
-            if c.accepted && c.judged {
+            if c.accepted && !passes(c.df) {
+                st.probe("filtered_frame_seen");
+            } else if c.accepted && c.judged {
                 let a = c.addr.unwrap();
                 model.accept(a, s.t_us);
                 touched.push(a);
@@ -198,6 +210,7 @@ fn check(case: &Case, st: &mut Stats) -> Vec<Violation> {
         for s in &h.steps {
             for l in &s.lines {
                 let c = refm::classify(l);
+                if c.accepted && !passes(c.df) { continue; }
                 if c.accepted && c.judged { own.entry(c.addr.unwrap()).or_default().push((s.t_us, l.clone())); } else if c.accepted { unjudged_any = true; }
             }
         }
